@@ -61,12 +61,16 @@ Fixpoint insert_nth {A} (k : nat) (x : A) (l : list A) : list A :=
   | S _, [] => [x]
   end.
 
+(* the class the contract side sees for a scripted node error (errs.go normNodeCls;
+   an error is never the nil class) *)
+Definition norm_cls (cls : N) : N := if cls =? 0 then E_APPEND_FAILED else cls.
+
 Definition ss_do_append (s : sstore) (q : areq) : areply * sstore :=
   let f := hd FOk (ss_app s) in
   let s0 := SS (ss_log s) (tl (ss_app s)) (ss_look s)
                (PCApp (q_attempt q) (q_alloc q) (req_recs (q_items q)) :: ss_calls s) in
   match f with
-  | FFailBefore cls => (AErr cls, s0)
+  | FFailBefore cls => (AErr (norm_cls cls), s0)
   | _ =>
       let skip := match f with
                   | FItemErr j _ => if j <? N.of_nat (length (q_items q)) then Some (N.to_nat j) else None
@@ -78,11 +82,11 @@ Definition ss_do_append (s : sstore) (q : areq) : areply * sstore :=
         let s1 := SS (ss_log s ++ stored) (ss_app s0) (ss_look s0) (ss_calls s0) in
         let results := map (fun p => ARes (pr_id p) (pr_seq p) 0) stored in
         match f with
-        | FFailAfter cls => (AErr cls, s1)
+        | FFailAfter cls => (AErr (norm_cls cls), s1)
         | FShort k => (AOk (firstn (N.to_nat k) results), s1)
         | FItemErr _ cls =>
             match skip with
-            | Some j => (AOk (insert_nth j (ARes 0 0 cls) results), s1)
+            | Some j => (AOk (insert_nth j (ARes 0 0 (norm_cls cls)) results), s1)
             | None => (AOk results, s1)
             end
         | _ => (AOk results, s1)
